@@ -31,6 +31,10 @@ SPECS = [
         inputs=[("use_sde", "bool")], subst={"self.use_sde": "use_sde"},
     ),
     dict(
+        name="onp_clip", qual=_Q, start=r"^clipped_actions = .*self\.action_space\.low", end=None, kind="expr", ret="Q",
+        inputs=[("actions", "Q"), ("low", "Q"), ("high", "Q")], subst={"self.action_space.low": "low", "self.action_space.high": "high"},
+    ),
+    dict(
         name="onp_unscale", file="stable_baselines3/common/policies.py", qual="BasePolicy.unscale_action", start=r"^return ", end=None,
         kind="expr", ret="Q", inputs=[("low", "Q"), ("high", "Q"), ("scaled_action", "Q")],
     ),
